@@ -84,6 +84,10 @@ type DFA struct {
 	// These slots represent capture positions at the match (END positions)
 	matchSlots []uint32
 
+	// endOnly[sid] is true for a match state whose match lies behind an end-of-text
+	// assertion: it matches only when the input ends in this state
+	endOnly []bool
+
 	// Minimum match state ID for fast match detection
 	// States with ID >= minMatchID are match states
 	minMatchID StateID
@@ -99,6 +103,9 @@ type Cache struct {
 	// slots stores capture group positions: [start0, end0, start1, end1, ...]
 	// Group 0 is the entire match, groups 1+ are explicit captures
 	slots []int
+	// saved holds the slots of the last match passed on the way (leftmost-first: it is
+	// the answer unless a higher-priority continuation matches later)
+	saved []int
 }
 
 // NewCache creates a new cache for the given number of capture groups.
@@ -106,6 +113,7 @@ type Cache struct {
 func NewCache(numCaptures int) *Cache {
 	return &Cache{
 		slots: make([]int, numCaptures*2),
+		saved: make([]int, numCaptures*2),
 	}
 }
 
@@ -134,6 +142,12 @@ func (d *DFA) IsMatch(input []byte) bool {
 	state := d.startState
 
 	for _, b := range input {
+		// A match state reached before the end of the input is a match of a prefix,
+		// unless its match lies behind an end-of-text assertion
+		if d.isMatchState(state) && !d.isEndOnly(state) {
+			return true
+		}
+
 		class := d.classes.Get(b)
 		trans := d.getTransition(state, class)
 
@@ -142,15 +156,15 @@ func (d *DFA) IsMatch(input []byte) bool {
 		}
 
 		state = trans.NextState()
-
-		// Check for match (early termination)
-		if d.isMatchState(state) {
-			return true
-		}
 	}
 
 	// Check final state
 	return d.isMatchState(state)
+}
+
+// isEndOnly returns true if state matches only at the end of the input.
+func (d *DFA) isEndOnly(state StateID) bool {
+	return int(state) < len(d.endOnly) && d.endOnly[state]
 }
 
 // getTransition retrieves the transition for the given state and byte class.
